@@ -35,6 +35,7 @@ type Job struct {
 	Env     []string
 	NeedLlgo bool // build llgo from the working tree first and export VERIF_LLGO
 	ThoroughOnly bool
+	Prepare  string        // test run once per package before the shards (builds shared artefacts into $VERIF_SHARED)
 	Fuzz     string        // native fuzz target (thorough only)
 	FuzzTime time.Duration
 }
@@ -234,6 +235,8 @@ func main() {
 
 	var results []*shardResult
 	infra := false
+	prepared := map[string]bool{}
+	var prepViolations []string
 	for ji := range prop.Jobs {
 		job := &prop.Jobs[ji]
 		if job.ThoroughOnly && ti == 0 {
@@ -251,6 +254,26 @@ func main() {
 			fmt.Fprintf(os.Stderr, "vcheck: job %s: build failed:\n%s\n", job.Name, berr)
 			infra = true
 			continue
+		}
+		shared := filepath.Join(work, "shared-"+strings.NewReplacer("/", "_", ".", "_").Replace(job.Pkg))
+		jenv = append(jenv, "VERIF_SHARED="+shared)
+		if job.Prepare != "" && !prepared[shared] {
+			prepared[shared] = true
+			os.MkdirAll(filepath.Join(shared, "tmp"), 0o755)
+			penv := append(append([]string{}, jenv...), "VERIF_WORK="+shared, "TMPDIR="+filepath.Join(shared, "tmp"))
+			out, code, to := run(shared, penv, 30*time.Minute, bin, "-test.run", job.Prepare, "-test.v", "-test.timeout", "0")
+			if code != 0 || to {
+				fmt.Fprintf(os.Stderr, "vcheck: job %s: prepare step failed (exit %d):\n%s\n", job.Name, code, tail(out, 4000))
+				if strings.Contains(out, "[C") && !strings.Contains(out, "VERIF-INFRA") && !to {
+					// the artefact under test could not be built from valid input: that is a violation in itself
+					p := filepath.Join(replayDir, fmt.Sprintf("%s-%s-prepare-seed%d.log", id, job.Name, seed))
+					os.WriteFile(p, []byte(out), 0o644)
+					prepViolations = append(prepViolations, p)
+				} else {
+					infra = true
+				}
+				continue
+			}
 		}
 		if replay != "" {
 			r := runReplay(job, bin, jw, jenv, replay)
@@ -281,6 +304,11 @@ func main() {
 	violations := 0
 	var lines []string
 	seenReplay := map[string]bool{}
+	for _, p := range prepViolations {
+		lines = append(lines, fmt.Sprintf("VIOLATION property=%s replay=%s", id, p))
+		violations++
+	}
+	seenKey := map[string]bool{}
 	for _, r := range results {
 		if r.timeout {
 			fmt.Fprintf(os.Stderr, "vcheck: job %s shard %d: hard timeout (infrastructure)\n", r.job.Name, r.shard)
@@ -289,6 +317,10 @@ func main() {
 		}
 		if r.stats != nil {
 			for _, v := range r.stats.Violations {
+				if seenKey[v.Key] { // one line per root-cause key; the other replay files stay on disk
+					continue
+				}
+				seenKey[v.Key] = true
 				if !seenReplay[v.Replay] {
 					seenReplay[v.Replay] = true
 					lines = append(lines, fmt.Sprintf("VIOLATION property=%s replay=%s", id, v.Replay))
@@ -386,7 +418,7 @@ func buildTest(job *Job, jw string, env []string) (string, string) {
 		s += "\nrequire pgregory.net/rapid v1.3.0\nrequire verifstat v0.0.0\nreplace verifstat => " + filepath.Join(verifRoot, "vstat") + "\n"
 		os.WriteFile(filepath.Join(jw, "go.mod"), []byte(s), 0o644)
 		gs, _ := os.ReadFile(filepath.Join(repo, "go.sum"))
-		extra, _ := os.ReadFile(filepath.Join(verifRoot, "harness", "go.sum"))
+		extra, _ := os.ReadFile(filepath.Join(verifRoot, "go.sum"))
 		os.WriteFile(filepath.Join(jw, "go.sum"), append(gs, extra...), 0o644)
 		ov := map[string]map[string]string{"Replace": {}}
 		for _, f := range job.Files {
@@ -406,7 +438,7 @@ func buildTest(job *Job, jw string, env []string) (string, string) {
 		}
 	case "harness":
 		args := []string{"test", "-c", "-vet=off", "-o", bin, job.Pkg}
-		out, code, to := run(filepath.Join(verifRoot, "harness"), env, 15*time.Minute, "go", args...)
+		out, code, to := run(verifRoot, env, 15*time.Minute, "go", args...)
 		if code != 0 || to {
 			return "", out
 		}
